@@ -18,6 +18,9 @@ pub struct Variant {
     /// a second import with the *same* module/field names as `a` but another signature:
     /// 0 = none, 1 = placed before `a`, 2 = placed after `a`
     pub dup_names: u8,
+    /// `$loc` is the target of a `ref.func` in some body and is declared for that only by being
+    /// exported (it is not listed in the element segment)
+    pub ref_func_loc: bool,
 }
 
 #[derive(Clone, Copy, Debug, PartialEq, Eq)]
@@ -31,7 +34,9 @@ pub enum Target {
 /// "scratch": the new body keeps an intermediate value in a local of its own, which has to be
 /// created before the replace call (the closure only gets the body builder), so its id is smaller
 /// than the ids of the argument locals the call creates
-pub const BODIES: [&str; 6] = ["const", "arg", "call-other", "global", "unreachable", "scratch"];
+/// "bulk": the new body uses memory.init / data.drop on the module's (active) data segment, which
+/// the input - and its lack of a data-count section - did not
+pub const BODIES: [&str; 7] = ["const", "arg", "call-other", "global", "unreachable", "scratch", "bulk"];
 
 /// WAT of the module. `replaced`: None = original; Some((target, body, which_export)) = expected
 fn wat(v: &Variant, replaced: Option<(Target, usize, usize)>) -> String {
@@ -42,6 +47,7 @@ fn wat(v: &Variant, replaced: Option<(Target, usize, usize)>) -> String {
             2 => format!("(call ${} (local.get 0))", other),
             3 => "(global.set $g (local.get 0)) (global.get $g)".into(),
             5 => "(local i32) (local.set 1 (i32.add (local.get 0) (i32.const 1))) (i32.add (local.get 1) (local.get 0))".into(),
+            6 => "(memory.init $d (i32.const 8) (i32.const 0) (i32.const 0)) (data.drop $d) (local.get 0)".into(),
             _ => "(unreachable)".into(),
         }
     };
@@ -51,6 +57,7 @@ fn wat(v: &Variant, replaced: Option<(Target, usize, usize)>) -> String {
             2 => "(drop (call $a (i32.const 1)))".into(),
             3 => "(global.set $g (i32.const 5))".into(),
             5 => "(local i32) (local.set 0 (i32.const 3)) (global.set $g (local.get 0))".into(),
+            6 => "(data.drop $d)".into(),
             _ => "(unreachable)".into(),
         }
     };
@@ -76,6 +83,7 @@ fn wat(v: &Variant, replaced: Option<(Target, usize, usize)>) -> String {
     }
     s += "  (import \"env\" \"mg\" (global $g (mut i32)))\n";
     s += "  (table (export \"tab\") 4 funcref)\n";
+    s += "  (memory (export \"mem\") 1)\n  (data $d (i32.const 0) \"hello\")\n";
     let other_for_a = if v.two_imports { "b" } else { "loc" };
     if rep_a {
         s += &format!("  (func $a (type $t) {})\n", body_t(rb, other_for_a));
@@ -87,7 +95,12 @@ fn wat(v: &Variant, replaced: Option<(Target, usize, usize)>) -> String {
         s += &format!("  (func $s (type $v) {})\n", body_s(rb));
     }
     s += "  (func $loc (type $t) (i32.add (local.get 0) (i32.const 100)))\n";
-    s += &format!("  (elem (i32.const 0) $a {} $loc)\n", if v.two_imports { "$b" } else { "$loc" });
+    if v.ref_func_loc {
+        s += &format!("  (elem (i32.const 0) $a {} $a)\n", if v.two_imports { "$b" } else { "$a" });
+        s += "  (func (export \"rf\") (result i32) (ref.is_null (ref.func $loc)))\n";
+    } else {
+        s += &format!("  (elem (i32.const 0) $a {} $loc)\n", if v.two_imports { "$b" } else { "$loc" });
+    }
     s += "  (func (export \"direct_a\") (param i32) (result i32) (call $a (local.get 0)))\n";
     if v.two_imports {
         s += "  (func (export \"direct_b\") (param i32) (result i32) (call $b (i32.add (local.get 0) (i32.const 1))))\n";
@@ -110,6 +123,10 @@ fn wat(v: &Variant, replaced: Option<(Target, usize, usize)>) -> String {
     s += &format!("  (export \"loc\" (func {}))\n", l1);
     if v.double_export {
         s += &format!("  (export \"loc2\" (func {}))\n", l2);
+    }
+    if v.ref_func_loc && !v.double_export && matches!(replaced, Some((Target::ExportLoc, _, _))) {
+        // $loc lost the export that declared it for ref.func: any correct result declares it some other way
+        s += "  (elem declare func $loc)\n";
     }
     if v.reexport {
         s += "  (export \"re_a\" (func $a))\n";
@@ -145,6 +162,8 @@ fn edit(orig: &[u8], v: &Variant, target: Target, body: usize) -> Result<Vec<u8>
         let fb = m.imports.get_func("env", "b").ok();
         let floc = m.exports.get_func("loc").map_err(|e| e.to_string())?;
         let scratch = if body == 5 { Some(m.locals.add(ValType::I32)) } else { None };
+        let mem = m.memories.iter().next().map(|x| x.id()).ok_or("no memory")?;
+        let dat = m.data.iter().next().map(|x| x.id()).ok_or("no data")?;
         match target {
             Target::ImportA | Target::ImportB => {
                 let (fid, other) = if target == Target::ImportA { (fa, if v.two_imports { fb.unwrap() } else { floc }) } else { (fb.ok_or("no b")?, fa) };
@@ -165,6 +184,9 @@ fn edit(orig: &[u8], v: &Variant, target: Target, body: usize) -> Result<Vec<u8>
                         let s = scratch.unwrap();
                         b.local_get(args[0]).i32_const(1).binop(walrus::ir::BinaryOp::I32Add).local_set(s).local_get(s).local_get(args[0]).binop(walrus::ir::BinaryOp::I32Add);
                     }
+                    6 => {
+                        b.i32_const(8).i32_const(0).i32_const(0).memory_init(mem, dat).data_drop(dat).local_get(args[0]);
+                    }
                     _ => {
                         b.unreachable();
                     }
@@ -184,6 +206,9 @@ fn edit(orig: &[u8], v: &Variant, target: Target, body: usize) -> Result<Vec<u8>
                     5 => {
                         let s = scratch.unwrap();
                         b.i32_const(3).local_set(s).local_get(s).global_set(g);
+                    }
+                    6 => {
+                        b.data_drop(dat);
                     }
                     _ => {
                         b.unreachable();
@@ -208,6 +233,9 @@ fn edit(orig: &[u8], v: &Variant, target: Target, body: usize) -> Result<Vec<u8>
                     5 => {
                         let s = scratch.unwrap();
                         b.local_get(args[0]).i32_const(1).binop(walrus::ir::BinaryOp::I32Add).local_set(s).local_get(s).local_get(args[0]).binop(walrus::ir::BinaryOp::I32Add);
+                    }
+                    6 => {
+                        b.i32_const(8).i32_const(0).i32_const(0).memory_init(mem, dat).data_drop(dat).local_get(args[0]);
                     }
                     _ => {
                         b.unreachable();
@@ -249,7 +277,7 @@ pub fn plan_one(v: &Variant, t: Target, body: usize) -> Result<Planned, String> 
     if t == Target::ExportLoc && v.double_export {
         expected.push(assemble(&wat(v, Some((t, body, 1))))?);
     }
-    let cfg = json!({"with_start": v.with_start, "reexport": v.reexport, "double_export": v.double_export, "two_imports": v.two_imports, "dup_names": v.dup_names, "target": format!("{:?}", t), "body": body});
+    let cfg = json!({"with_start": v.with_start, "reexport": v.reexport, "double_export": v.double_export, "two_imports": v.two_imports, "dup_names": v.dup_names, "ref_func_loc": v.ref_func_loc, "target": format!("{:?}", t), "body": body});
     Ok(Planned {
         case: Case { family: "replace".into(), coords: format!("{:?} {:?} body={}", v, t, BODIES[body]), wasm: orig.clone(), cfg },
         orig,
@@ -262,8 +290,8 @@ pub fn plan_one(v: &Variant, t: Target, body: usize) -> Result<Planned, String> 
 
 pub fn plan() -> Vec<Planned> {
     let mut out = vec![];
-    for bits in 0..48u32 {
-        let v = Variant { with_start: bits & 1 != 0, reexport: bits & 2 != 0, double_export: bits & 4 != 0, two_imports: bits & 8 != 0, dup_names: (bits / 16) as u8 };
+    for bits in 0..96u32 {
+        let v = Variant { with_start: bits & 1 != 0, reexport: bits & 2 != 0, double_export: bits & 4 != 0, two_imports: bits & 8 != 0, dup_names: ((bits / 16) % 3) as u8, ref_func_loc: bits >= 48 };
         let mut targets = vec![Target::ImportA, Target::ExportLoc];
         if v.two_imports {
             targets.push(Target::ImportB);
@@ -272,7 +300,7 @@ pub fn plan() -> Vec<Planned> {
             targets.push(Target::ImportS);
         }
         for t in targets {
-            for body in 0..6 {
+            for body in 0..7 {
                 if t == Target::ImportS && body == 1 {
                     continue;
                 }
@@ -309,8 +337,27 @@ pub fn check_struct(p: &Planned) -> (Vec<Violation>, Option<Vec<u8>>) {
     for e in &p.expected {
         let a = decode(e).unwrap();
         match iso(&a, &b, IsoMode::RoundTrip) {
-            Ok(_) => {
+            Ok(maps) => {
                 ok = true;
+                // names: every function of the expected module except the freshly built `$repl` keeps
+                // its name (the original function and a replaced import keep their identifiers, and with
+                // them their names); the new function must not have taken the name of another one
+                for (fi, name) in &a.names.funcs {
+                    let fj = match maps.f(wmodel::Space::Func, *fi) {
+                        Some(j) => j,
+                        None => continue,
+                    };
+                    let got = b.names.funcs.get(&fj);
+                    if name == "repl" {
+                        if let Some(g) = got {
+                            if a.names.funcs.values().any(|n| n == g && n != "repl") {
+                                v.push(Violation::new("C18", "replace-name-migrated", format!("the new function carries the name {:?}, which belongs to another function of the module", g), &p.case));
+                            }
+                        }
+                    } else if got != Some(name) {
+                        v.push(Violation::new("C18", "replace-name-lost", format!("function {:?} is still there after the edit but is now named {:?}", name, got), &p.case));
+                    }
+                }
                 break;
             }
             Err(ms) => errs.push(ms),
@@ -330,6 +377,7 @@ fn replan(c: &Case) -> Option<Planned> {
         double_export: c.cfg["double_export"].as_bool()?,
         two_imports: c.cfg["two_imports"].as_bool()?,
         dup_names: c.cfg["dup_names"].as_u64().unwrap_or(0) as u8,
+        ref_func_loc: c.cfg["ref_func_loc"].as_bool().unwrap_or(false),
     };
     plan_one(&v, target_of(c.cfg["target"].as_str()?), c.cfg["body"].as_u64()? as usize).ok()
 }
